@@ -90,8 +90,8 @@ var c04Pools = map[string]pool{
 		bad:  []hx.Val{hx.Str("x"), hx.Bool(true)},
 	},
 	"Int64": {
-		good:   []hx.Val{hx.I64(1 << 40), hx.I64(math.MaxInt64), hx.I64(math.MinInt64), hx.I64(0), hx.I64(-5)},
-		bad:    []hx.Val{hx.Bool(true), hx.F64(1.5), hx.Str("abc")},
+		good: []hx.Val{hx.I64(1 << 40), hx.I64(math.MaxInt64), hx.I64(math.MinInt64), hx.I64(0), hx.I64(-5)},
+		bad:  []hx.Val{hx.Bool(true), hx.F64(1.5), hx.Str("abc")},
 		// (a string of digits: if it is taken at all, it is read as the decimal number it spells)
 		either: []hx.Val{hx.Str("12"), hx.Str("0123"), hx.Str("-010"), hx.Str("0100"), hx.Str("9223372036854775807"), hx.Str("0x10")},
 	},
